@@ -36,6 +36,10 @@ fn main() {
                 Ok(v) => println!("OK {}", serde_json::to_string(&v).unwrap()),
                 Err(e) => println!("ERR {}", e),
             },
+            "debug" => match serde_json::from_str::<MODNAME::ResponseData>(p) {
+                Ok(v) => println!("OK {}", serde_json::to_string(&format!("{:?}", v)).unwrap()),
+                Err(e) => println!("ERR {}", e),
+            },
             "variables" => match serde_json::from_str::<MODNAME::Variables>(p) {
                 Ok(v) => println!("OK {}", serde_json::to_string(&OPNAME::build_query(v)).unwrap()),
                 Err(e) => println!("ERR {}", e),
